@@ -6,6 +6,7 @@ import Proofs.Containers
 import Proofs.Aligned
 import Proofs.BackGlobal
 import Proofs.Counted
+import Proofs.NoIdleGlobal
 import Properties.C09
 /-! driver command `J {"op":"sched", …}`: run the scheduler model on one scenario projection -/
 namespace SPD
@@ -97,6 +98,12 @@ def teamEligB (e : Env) (t : Nat) : Bool :=
     decide d.alloc.Nodup && d.alloc.all (fun r => (e.resD r).eff == (e.resD (d.alloc.headD 0)).eff) &&
     decide ((e.resD (d.alloc.headD 0)).eff > 0)
 
+/-- decidable form of `EligU` (hypotheses of `C08.eligU_of_single`) -/
+def eligUB (e : Env) (t : Nat) : Bool :=
+  let d := e.taskD t
+  eligB e t && !d.startProvided && (resLimitIds e (d.alloc.headD 0)).isEmpty && (taskLimitIds e t).isEmpty &&
+    (e.resD (d.alloc.headD 0)).leaf
+
 /-- decidable form of `FwdEff` -/
 def fwdEffB (e : Env) (t : Nat) : Bool :=
   let d := e.taskD t
@@ -171,6 +178,18 @@ def runSched (j : Json) : Json :=
         decide (sumTrips σ L ≤ (max 0 (e.limitD lid).value : Int) * (e.G : Rat))
       (lid, p, ok)))
   let limFail := limChecks.filter (fun x => !x.2.2)
+  -- C08.no_idle_final: between the bound slot and the last booked slot every working slot of the resource carries an entry
+  let idleTasks := (List.range e.tasks.size).filter (fun t => eligUB e t && (σ.tst t).scheduled && (σ.tst t).forward)
+  let idleFail := idleTasks.filter (fun t =>
+    let r := (e.taskD t).alloc.headD 0
+    let booked := (σ.led.m.toList.filter (fun (ks : Key × Slot) => ks.1.1 == r && (usageOf ks.2.usage t).isSome)).map (fun ks => ks.1.2)
+    let b := boundSlot e σ t
+    match booked.foldl (fun (m : Option Int) i => match m with | none => some i | some x => some (max x i)) none with
+    | none => false
+    | some L =>
+      !((List.range (L - b + 1).toNat).all (fun k =>
+        let i := b + (k : Int)
+        !(e.onShift r i && !e.leaveMark r i) || !(σ.led.get r i).usage.isEmpty)))
   -- containers: scheduled => children scheduled and dates = min / max; all children scheduled => scheduled
   let conts := (List.range e.tasks.size).filter (fun c => !(e.taskD c).leaf && !(e.taskD c).children.isEmpty)
   let contFail := conts.filter (fun c =>
@@ -185,6 +204,7 @@ def runSched (j : Json) : Json :=
   let nAligned := ((List.range e.res.size).filter (fun r => calAlignedB el.cal (el.rcal.getD r {}))).length
   let thm := Json.mkObj [("resources", Json.num (JsonNumber.fromNat e.res.size)), ("resources_aligned", Json.num (JsonNumber.fromNat nAligned)),
                          ("back_edges", Json.num (JsonNumber.fromNat backPairs.length)), ("back_fail", Json.num (JsonNumber.fromNat backFail.length)),
+                         ("idle_tasks", Json.num (JsonNumber.fromNat idleTasks.length)), ("idle_fail", Json.num (JsonNumber.fromNat idleFail.length)),
                          ("limit_periods", Json.num (JsonNumber.fromNat limChecks.length)), ("limit_fail", Json.num (JsonNumber.fromNat limFail.length)),
                          ("containers", Json.num (JsonNumber.fromNat conts.length)), ("container_fail", Json.num (JsonNumber.fromNat contFail.length)),
                          ("elig", Json.num (JsonNumber.fromNat eligs.length)), ("elig_scheduled", Json.num (JsonNumber.fromNat eligSched.length)),
